@@ -5,7 +5,9 @@
 //!   req <VERB> <target> <auth> <ct> <accept> rpc <method:S> <name:-|S> <apikey:-|S> <fresh:S> <pvar>
 //!        target: / | db:S | dbp:S (same, every byte percent-encoded on the wire) | badutf8:S (raw path) | unrouted:S (raw path)
 //!        pvar  : d (default parameters) | x (default parameters plus fields naming other databases) | n (null parameters)
-//!   restart
+//!                | ro (like d, but `*.set_read_only` switch read-only ON) | fixture (collection.ensure creates `c1`)
+//!   restart                (clean stop, new AppState over the same store)
+//!   crash                  (the process dies without flushing; new AppState over what the store holds; the model treats it as restart)
 //!   fixture <S>            (harness only: populate database S through the admin; not sent to the model)
 //!
 //! A string token S is `x<hex of the UTF-8 bytes>` or `=<literal>` (only `A-Za-z0-9_.$:/%-`, `~` for a space).
@@ -52,6 +54,8 @@ pub enum Op {
     Cfg(CfgLine),
     Req(Req),
     Restart,
+    /// the process dies (nothing is flushed or closed) and a new one starts over what the store holds
+    Crash,
     Fixture(String),
 }
 
@@ -149,6 +153,7 @@ impl Op {
         match self {
             Op::Cfg(c) => format!("cfg {} {} {}", opt_enc(&c.admin), enc_str(&c.primary), c.max),
             Op::Restart => "restart".into(),
+            Op::Crash => "crash".into(),
             Op::Fixture(n) => format!("fixture {}", enc_str(n)),
             Op::Req(r) => {
                 let target = match &r.target {
@@ -175,6 +180,7 @@ impl Op {
         match w.as_slice() {
             ["cfg", a, p, m] => Some(Op::Cfg(CfgLine { admin: opt_dec(a)?, primary: dec_str(p)?, max: m.parse().ok()? })),
             ["restart"] => Some(Op::Restart),
+            ["crash"] => Some(Op::Crash),
             ["fixture", n] => Some(Op::Fixture(dec_str(n)?)),
             ["req", verb, target, auth, ct, accept, body @ ..] => {
                 let target = if *target == "/" {
